@@ -122,6 +122,8 @@ package stack
 //@   ensures [consumedLineFollowsTheTransitionTable C01 C07 C08] result0 ==> (old(s.state) == looking ==> s.state == gotRoutineHeader || s.state == gotRaceHeader1) && (old(s.state) == betweenRoutine ==> s.state == gotRoutineHeader) && (old(s.state) == gotRoutineHeader ==> s.state == gotUnavail || s.state == gotFunc) && (old(s.state) == gotFunc ==> s.state == gotFileFunc) && (old(s.state) == gotCreated ==> s.state == gotFileCreated) && (old(s.state) == gotFileFunc ==> s.state == gotCreated || s.state == gotFileFunc || s.state == gotFunc || s.state == betweenRoutine) && (old(s.state) == gotFileCreated ==> s.state == betweenRoutine) && (old(s.state) == gotUnavail ==> s.state == betweenRoutine || s.state == gotCreated) && (old(s.state) == gotRaceHeader1 ==> s.state == gotRaceHeader2) && (old(s.state) == gotRaceHeader2 ==> s.state == gotRaceOperationHeader) && (old(s.state) == gotRaceOperationHeader ==> s.state == gotRaceOperationFunc) && (old(s.state) == gotRaceOperationFunc ==> s.state == gotRaceOperationFile) && (old(s.state) == gotRaceOperationFile ==> s.state == betweenRaceOperations || s.state == gotRaceOperationFunc) && (old(s.state) == betweenRaceOperations ==> s.state == gotRaceOperationHeader || s.state == gotRaceGoroutineHeader) && (old(s.state) == betweenRaceGoroutines ==> s.state == gotRaceGoroutineHeader) && (old(s.state) == gotRaceGoroutineHeader ==> s.state == gotRaceGoroutineFunc) && (old(s.state) == gotRaceGoroutineFunc ==> s.state == gotRaceGoroutineFile) && (old(s.state) == gotRaceGoroutineFile ==> s.state == betweenRaceGoroutines || s.state == done || s.state == gotRaceGoroutineFunc)
 //@   ensures [raceErrorChangesNoState C08] (old(s.state) == betweenRaceOperations || old(s.state) == betweenRaceGoroutines) && result1 != nil && s.state != done ==> s.state == old(s.state) && s.goroutineIndex == old(s.goroutineIndex) && len(s.Goroutines) == old(len(s.Goroutines)) && forall j :: 0 <= j && j < len(s.Goroutines) ==> s.Goroutines[j].State == old(s.Goroutines[j].State)
 //@   assert after-call FindSubmatch#1: [lineTerminatorRemoved C01] arr(arg1) == arr(line) && ((len(line) >= 2 && line[len(line)-2] == 13 && line[len(line)-1] == 10) ? off(arg1) + len(arg1) == off(line) + len(line) - 2 : ((len(line) >= 1 && line[len(line)-1] == 10) ? off(arg1) + len(arg1) == off(line) + len(line) - 1 : off(arg1) + len(arg1) == off(line) + len(line)))
+//@   assert after-call FindSubmatch#2: [minutesLookedUpInTheCurrentItem C01] sameslice(arg1, items[i])
+//@   assert after-call atou#2: [sleepIsTheMinutesGroup C01] sameslice(arg0, match2[1])
 //@   assert after-call bytes.Split#1: [stateItemsAreTheBracketText C01] sameslice(arg0, match[3]) && sameslice(arg1, commaSpace)
 //@   assert after-store Snapshot.Goroutines#2: [lockedFlagFromTheItems C01] s.Goroutines[len(s.Goroutines)-1].Locked <==> (exists j :: 1 <= j && j < len(items) && SameBytes(items[j], lockedToThread))
 //@   assert after-store Snapshot.Goroutines#2: [headerFields C01] len(s.Goroutines) >= 1 && s.Goroutines[len(s.Goroutines)-1].ID == decval(match[2], len(match[2])) && s.Goroutines[len(s.Goroutines)-1].SleepMin == sleep && s.Goroutines[len(s.Goroutines)-1].SleepMax == sleep && (s.Goroutines[len(s.Goroutines)-1].Locked <==> locked) && (s.Goroutines[len(s.Goroutines)-1].First <==> len(s.Goroutines) == 1) && s.Goroutines[len(s.Goroutines)-1].RaceAddr == 0 && len(s.Goroutines[len(s.Goroutines)-1].Stack.Calls) == 0 && len(s.Goroutines[len(s.Goroutines)-1].State) == len(items[0]) && (forall k :: 0 <= k && k < len(items[0]) ==> s.Goroutines[len(s.Goroutines)-1].State[k] == items[0][k])
